@@ -440,6 +440,31 @@ fn main() {
             ]);
             emit(&m, &out, vs.is_empty());
         },
+        "rcchain" => {
+            let t0 = std::time::Instant::now();
+            alloc::init_thread();
+            let max_n: usize = m.get("max-n").map_or(200, |v| v.parse().expect("bad number"));
+            let extra: Vec<usize> = m.get("extra").map_or(vec![], |v| v.split(',').filter(|x| !x.is_empty()).map(|x| x.parse().expect("bad number")).collect());
+            let (st, vs) = chain::run_rc(max_n, &extra);
+            let found: Vec<J> = vs.iter().take(5).map(|v| J::obj(vec![("history", J::s("")), ("history_pretty", J::s(&v.msg)), ("epilogue", J::s("")), ("epilogue_pretty", J::s("")), ("violations", J::Arr(vec![viol_json(v)]))])).collect();
+            let out = J::obj(vec![
+                ("lens", J::s("rcchain")),
+                ("build", J::s(&build_cfg_name())),
+                ("states", J::n(st.cases as f64)),
+                ("transitions", J::n(st.cases as f64)),
+                ("executions", J::n(st.cases as f64)),
+                ("max_depth_completed", J::n(max_n as f64)),
+                ("fixpoint", J::Bool(true)),
+                ("cut_reason", J::Null),
+                ("samples", J::Arr(st.samples.iter().map(|s| J::s(s)).collect())),
+                ("vacuity", J::obj(vec![("cases", J::n(st.cases as f64)), ("earlier_collections", J::n(st.collects as f64)), ("distinct_shapes", J::n(st.distinct.len() as f64))])),
+                ("machinery_errors", J::Arr(vec![])),
+                ("found", J::Arr(found)),
+                ("lens_args", J::s(&std::env::args().skip(1).collect::<Vec<_>>().join(" "))),
+                ("wall_s", J::n(t0.elapsed().as_secs_f64())),
+            ]);
+            emit(&m, &out, vs.is_empty());
+        },
         "interleave" => {
             let t0 = std::time::Instant::now();
             let getf = |k: &str, d: f64| -> f64 { m.get(k).map_or(d, |v| v.parse().expect("bad number")) };
